@@ -127,9 +127,13 @@ Deposit == /\ N < NV
            /\ LET k == N + 1
                   v == [a |-> FAR, x |-> FAR, e |-> 2, s |-> 0, k |-> k] IN
               /\ st' = [st EXCEPT !.vals = Append(@, v)]
+              \* since fix c7c81ac ProcessDeposit also appends the new validator's effective balance to the cached list;
+              \* with the (now closed) finding epc-eff-short-after-deposit listed, the model shows the old behaviour
               /\ epc' = IF Flaw_NoPubkeyExtend THEN epc
                         ELSE [epc EXCEPT !.k2i = [kk \in DOMAIN @ \cup {k} |-> IF kk = k THEN N ELSE @[kk]],
-                                         !.i2k = Append(@, k)]
+                                         !.i2k = Append(@, k),
+                                         !.eff = IF "epc-eff-short-after-deposit" \in KnownDeviations THEN @
+                                                 ELSE Append(@, EffBalances(<<v>>)[1])]
            /\ UNCHANGED nAtEpochStart
 
 ---------------------------------------------------------------------------
